@@ -213,17 +213,17 @@ theorem C10_flush_needs_live_loop :
 /-! ## Concrete codecs from C11 (`Proofs/C10Concrete.lean`)
 
 Views with their real reader / writer (C11's models over the format strings of `Gen.Bspfmt`):
-**cubemaps, visibility, vertexes, planes**.  Still abstract (hypothesis `AbstractOK`, only at these views):
-pakfile, ents, textures, texinfo, overlays, bmodels, brushes, visleafs, water_leaf_info, nodes, surfedges,
+**textures, cubemaps, visibility, vertexes, planes**.  Still abstract (hypothesis `AbstractOK`, only at these views):
+pakfile, ents, texinfo, overlays, bmodels, brushes, visleafs, water_leaf_info, nodes, surfedges,
 faces, orig_faces, hdr_faces, primitives, props, detail_props — C11's theorems for most of them are stated
 over tables of object numbers (`find_or_insert` on identities), not over lump bytes + parsed views, and are not
 plugged in here. -/
 
 /-- exactly these views of the current tables have a concrete codec. -/
 theorem C10_concrete_views :
-    (List.range Gen.Bsp.tables.n).filter (fun v => (specOf (A := Unit) v).isSome) = [4, 11, 12, 14] ∧
+    (List.range Gen.Bsp.tables.n).filter (fun v => (specOf (A := Unit) v).isSome) = [2, 4, 11, 12, 14] ∧
     ((List.range Gen.Bsp.tables.n).filter (fun v => (specOf (A := Unit) v).isSome)).map
-      (fun v => (Gen.Bsp.tables.view v).name) = ["cubemaps", "visibility", "vertexes", "planes"] := by decide +kernel
+      (fun v => (Gen.Bsp.tables.view v).name) = ["textures", "cubemaps", "visibility", "vertexes", "planes"] := by decide +kernel
 
 /-- the format strings of the concrete codecs are the ones `bsp.py` uses to read and to write these lumps. -/
 theorem C10_gen_concrete_formats :
@@ -232,12 +232,13 @@ theorem C10_gen_concrete_formats :
 
 open StructCodec C11 in
 /-- **content, with concrete codecs.** Take the tables of the current source, the real readers/writers for
-planes, vertexes, cubemaps and visibility (`concrete … specOf`), any codec `Ca` for the other views satisfying
+planes, vertexes, cubemaps, textures and visibility (`concrete … specOf`), any codec `Ca` for the other views satisfying
 the laws *at those views only* (`AbstractOK`), and a file whose four lumps are what the writers produce for
-canonical records / rows (`FileOK` = the hypotheses of `C11_planes`, `C11_flat_lump`, `C11_visibility`) and
+canonical records / NUL-free names shorter than the limit / rows (`FileOK` = the hypotheses of `C11_planes`,
+`C11_flat_lump`, `C11_textures`, `C11_visibility`) and
 whose parse is `E`.  After reading ANY views in ANY order and saving: `E` is still the parse of all lumps,
-un-owned lumps are byte-identical, and — with no codec hypothesis left for them — the four lumps decode with
-`planesRead` / `recsRead` / `visRead` to exactly what they decoded to before. -/
+un-owned lumps are byte-identical, and — with no codec hypothesis left for them — the six lumps of the five
+views decode with `planesRead` / `recsRead` / `texRead` / `visRead` to exactly what they decoded to before. -/
 theorem C10_content_concrete {A : Type} (Ca : Codec Bytes (CVal A)) (raw₀ : Nat → Bytes) (E : Nat → CVal A)
     (hf : FileOK raw₀) (hE : IsEnv Gen.Bsp.tables (concrete Gen.Bsp.tables specOf Ca) raw₀ E)
     (ha : AbstractOK Gen.Bsp.tables specOf Ca raw₀ E) (xs : List Nat) (hxs : ∀ u ∈ xs, u < Gen.Bsp.tables.n) :
@@ -247,6 +248,8 @@ theorem C10_content_concrete {A : Type} (Ca : Codec Bytes (CVal A)) (raw₀ : Na
     planesRead planesFmt (raw' 1) = planesRead planesFmt (raw₀ 1) ∧
     recsRead vertexFmt (raw' 3) = recsRead vertexFmt (raw₀ 3) ∧
     recsRead cubemapFmt (raw' 42) = recsRead cubemapFmt (raw₀ 42) ∧
+    texRead Gen.Bspfmt.textureReadLimit (raw' 43) (offsRead (raw' 44).length (raw' 44))
+      = texRead Gen.Bspfmt.textureReadLimit (raw₀ 43) (offsRead (raw₀ 44).length (raw₀ 44)) ∧
     ((raw' 4 = [] ∧ raw₀ 4 = []) ∨ (raw' 4 ≠ [] ∧ raw₀ 4 ≠ [] ∧ visRead (raw' 4) = visRead (raw₀ 4))) := by
   intro C raw'
   obtain ⟨h1, h2, h3, h4, h5, h6, h7⟩ := ok_parts C10_gen_ok
@@ -262,11 +265,12 @@ theorem C10_content_concrete {A : Type} (Ca : Codec Bytes (CVal A)) (raw₀ : Na
   have e12 := (hE' 12 (by rw [hn]; decide)).trans (hE 12 (by rw [hn]; decide)).symm
   have e4 := (hE' 4 (by rw [hn]; decide)).trans (hE 4 (by rw [hn]; decide)).symm
   have e11 := (hE' 11 (by rw [hn]; decide)).trans (hE 11 (by rw [hn]; decide)).symm
-  simp only [C, concrete, specOf, planesSpec, flatSpec, visSpec] at e14 e12 e4 e11
+  have e2 := (hE' 2 (by rw [hn]; decide)).trans (hE 2 (by rw [hn]; decide)).symm
+  simp only [C, concrete, specOf, planesSpec, flatSpec, visSpec, texSpec] at e14 e12 e4 e11 e2
   obtain ⟨okp, okv, okc, sp, sv, sc⟩ := formats_ok
   obtain ⟨pv, pvm, wv, wv', nv⟩ := pair_of_ok _ _ okv
   obtain ⟨pc, pcm, wc, wc', nc⟩ := pair_of_ok _ _ okc
-  refine ⟨hE', hc, ?_, ?_, ?_, ?_⟩
+  refine ⟨hE', hc, ?_, ?_, ?_, ?_, ?_⟩
   · obtain ⟨recs, hwr, hcn, ht⟩ := hf.planes
     have h0 := C11_planes planesFmt sp recs _ hwr hcn ht
     rw [h0] at e14 ⊢
@@ -285,6 +289,12 @@ theorem C10_content_concrete {A : Type} (Ca : Codec Bytes (CVal A)) (raw₀ : Na
     cases hr : recsRead cubemapFmt (raw' 42) with
     | ok rs => rw [hr] at e4; simp at e4; rw [e4]
     | error e => rw [hr] at e4; simp at e4
+  · obtain ⟨names, offs, hn', hwr, htb⟩ := hf.textures
+    have h0 := tex_read_of_file raw₀ names offs hn' hwr htb
+    rw [h0] at e2 ⊢
+    cases hr : texRead Gen.Bspfmt.textureReadLimit (raw' 43) (offsRead (raw' 44).length (raw' 44)) with
+    | ok rs => rw [hr] at e2; simp at e2; rw [e2]
+    | error e => rw [hr] at e2; simp at e2
   · rcases hf.visibility with h0 | ⟨hne, pvs, pas, hwr, hp, hpa⟩
     · left
       refine ⟨?_, h0⟩
@@ -322,6 +332,7 @@ def exCa : Codec Bytes (CVal Bytes) where
 def exPlanes : List (List Val) := [[.f32 0, .f32 0, .f32 0x3f800000, .f32 0x42800000, .int 2], [.f32 0x3f800000, .f32 0, .f32 0, .f32 0, .int 0]]
 def exVerts : List (List Val) := [[.f32 0, .f32 0, .f32 0], [.f32 0x42800000, .f32 0, .f32 0x43008000]]
 def exCubes : List (List Val) := [[.int 10, .int (-20), .int 30, .int 0]]
+def exNames : List Bytes := [[84, 79, 79, 76, 83, 47, 78], [110, 47, 119]]
 def exPvs : List Bytes := [[1], [2]]
 def exPas : List Bytes := [[3], [0]]
 
@@ -330,12 +341,16 @@ def getOk (e : Except LumpErr Bytes) : Bytes := match e with | .ok b => b | .err
 def exRaw (l : Nat) : Bytes :=
   if l = 1 then getOk (recsWrite planesFmt exPlanes) else if l = 3 then getOk (recsWrite vertexFmt exVerts)
   else if l = 42 then getOk (recsWrite cubemapFmt exCubes) else if l = 4 then getOk (visWrite exPvs exPas)
+  else if l = 43 then (match texWrite Gen.Bspfmt.textureWriteLimit exNames with | .ok p => p.1 | .error _ => [])
+  else if l = 44 then (match texWrite Gen.Bspfmt.textureWriteLimit exNames with
+    | .ok p => getOk (offsTable p.2) | .error _ => [])
   else [UInt8.ofNat l, 7]
 
 theorem C10_example_file : FileOK exRaw where
   planes := ⟨exPlanes, by decide +kernel, by decide +kernel, by decide +kernel⟩
   vertexes := ⟨exVerts, by decide +kernel, by decide +kernel⟩
   cubemaps := ⟨exCubes, by decide +kernel, by decide +kernel⟩
+  textures := ⟨exNames, [0, 8], by decide +kernel, by decide +kernel, by decide +kernel⟩
   visibility := Or.inr ⟨by decide +kernel, exPvs, exPas, by decide +kernel, by decide +kernel, by decide +kernel⟩
 
 def exE : Nat → CVal Bytes := fun v => (concrete Gen.Bsp.tables specOf exCa).rd v exRaw (fun _ => .bad)
